@@ -114,12 +114,19 @@ def discTimestamp (o : Obj) : Except Err Unit :=
   if !v.truthy then .error .valueError
   else if v.isinstance .float then .ok () else .error .typeError
 
+/-- treeinfo `Checksums._validate_checksum_paths` (runs since the F4 repair): every key of `checksums` is relative -/
+def tiChecksumPaths (o : Obj) : Except Err Unit :=
+  match o.get "checksums".toList with
+  | .dict kvs => if kvs.any (fun kv => Str.startsWith kv.1 ['/']) then .error .valueError else .ok ()
+  | _ => .ok ()
+
 def customTable : List (Str × (Obj → Except Err Unit)) :=
   [("composeinfo.Compose._validate_label:verify_label(self.label)".toList, fun o => verifyLabel (o.get "label".toList)),
    ("composeinfo.Variant._validate_parent_arch".toList, ciVariantParentArch),
    ("composeinfo.Variant._validate_uid".toList, ciVariantUid),
    ("composeinfo.VariantBase._validate_variants".toList, validateVariantKeys),
    ("discinfo.DiscInfo._validate_timestamp".toList, discTimestamp),
+   ("treeinfo.Checksums._validate_checksum_paths".toList, tiChecksumPaths),
    ("treeinfo.Images._validate_image_paths".toList, tiImagePaths),
    ("treeinfo.Images._validate_platforms".toList, tiImagePlatforms),
    ("treeinfo.Variant._validate_uid".toList, tiVariantUid)]
